@@ -257,6 +257,52 @@ theorem gex_group_agrees (c : Env) (cs : GexSt) (p g x : Nat)
   rw [← List.append_assoc, s2]
   simp [inflate_mpintBody, hb1, hb2, hp1]
 
+/-- Group exchange from the very first message: paramiko's client request (1024, 2048, 8192), the
+    server's group from its pack, the client's `e`, the server's reply — every message is the one
+    the model of the other side produced; both sides end with the same hash input, `K` and `H`. -/
+theorem gex_full_honest (c s : Env) (g p xc xs : Nat) (hm : Mirror c s)
+    (hpack : s.modulus 1024 2048 8192 = some (g, p))
+    (hlo : 2 ^ 1023 ≤ p) (hhi : p < 2 ^ 8192)
+    (he : 1 ≤ pyPow (g : Int) xc p) (hf : 1 ≤ pyPow (g : Int) xs p)
+    (hk : s.hostKey.length < 4294967296) (hsig : ∀ H, (s.sign H).length < 4294967296)
+    (hmp : (mpintBody (p : Int)).length < 4294967296) (hmg : (mpintBody (g : Int)).length < 4294967296)
+    (hme : (mpintBody (pyPow (g : Int) xc p : Nat)).length < 4294967296)
+    (hmf : (mpintBody (pyPow (g : Int) xs p : Nat)).length < 4294967296) :
+    let e : Int := (pyPow (g : Int) xc p : Nat)
+    let f : Int := (pyPow (g : Int) xs p : Nat)
+    let K := pyPow f xc p
+    let hin := hashInGex c.localVersion c.remoteVersion c.localKexInit c.remoteKexInit s.hostKey
+      false 1024 2048 8192 p g e f K
+    let H := c.hash hin
+    let reply := encStr s.hostKey ++ encMpint f ++ encStr (s.sign H)
+    -- client → server: KEXDH_GEX_REQUEST
+    (gexStart c {} false).2 = [.send (34 :: (be32 1024 ++ be32 2048 ++ be32 8192)), .expect [31]] ∧
+    -- server → client: KEXDH_GEX_GROUP
+    ∃ ss cs, (gexRequest s {} (be32 1024 ++ be32 2048 ++ be32 8192)).out = .ok ss ∧
+      (gexRequest s {} (be32 1024 ++ be32 2048 ++ be32 8192)).eff
+        = [.send (31 :: (encMpint p ++ encMpint g)), .expect [32]] ∧
+    -- client → server: KEXDH_GEX_INIT
+      (gexGroup c (gexStart c {} false).1 (encMpint p ++ encMpint g) xc).out = .ok cs ∧
+      (gexGroup c (gexStart c {} false).1 (encMpint p ++ encMpint g) xc).eff = [.send (32 :: encMpint e), .expect [33]] ∧
+    -- server → client: KEXDH_GEX_REPLY, and the client's treatment of it
+      (gexInit s ss (encMpint e) xs).eff = [.hashed hin, .setKH K H, .send (33 :: reply), .activate] ∧
+      (gexReply c cs reply).eff = [.hashed hin, .setKH K H, .verifyKey s.hostKey (s.sign H)] ++
+          (if c.verify s.hostKey H (s.sign H) then [.activate] else []) := by
+  intro e f K hin H reply
+  have hpos : 0 < p := Nat.lt_of_lt_of_le (Nat.two_pow_pos 1023) hlo
+  have hreq := gex_request_agrees s 1024 2048 8192 g p (by decide) (by decide) (by decide) (by decide)
+    (by decide) (by decide) (by decide) hpack
+  have hstart : gexStart c {} false = (({} : GexSt), [.send (34 :: (be32 1024 ++ be32 2048 ++ be32 8192)), .expect [31]]) := by
+    simp [gexStart, hm.cm]
+  have hgrp := gex_group_agrees c {} p g xc hlo hhi hmp hmg
+  have hcore := gex_honest c s
+    { ({} : GexSt) with p := some (p : Int), g := some (g : Int), x := some xc, e := some ((pyPow (g : Int) xc p : Nat) : Int) }
+    { p := some (p : Int), g := some (g : Int), minBits := 1024, prefBits := 2048, maxBits := 8192 }
+    p g xc xs hm rfl rfl rfl rfl rfl rfl rfl rfl rfl rfl hpos he hf hk hsig hme hmf
+  refine ⟨by rw [hstart], _, _, hreq.2, hreq.1, ?_, ?_, hcore.1, hcore.2⟩
+  · rw [hstart]; exact hgrp.2
+  · rw [hstart]; exact hgrp.1
+
 /-- ECDH over the NIST curves: same statement, from the library's DH law -/
 theorem ec_honest (c s : Env) (cv : Curve) (hl : CurveLaws cv) (dc ds : Nat) (secret : Bytes) (hm : Mirror c s)
     (hx : cv.exchange ds (cv.pub dc) = .ok secret)
